@@ -163,6 +163,10 @@ type App struct {
 	// Endpoints: inbox / outbox IRIs that are not the actor's id plus "/inbox" or "/outbox" (routed by a
 	// query parameter, percent-escaped, ...): endpoint IRI -> {actor id, "inbox" | "outbox"}
 	Endpoints map[string][2]string
+	// AltEndpoints: the local actors' inboxes and outboxes live at query-routed IRIs
+	// (https://l.example/box?inbox-of=alice) instead of <actor>/inbox (UseAltEndpoints)
+	AltEndpoints bool
+	altPairs     [][2]string // (plain IRI, endpoint IRI)
 	Remote      map[string][]byte // documents served by Transport.Dereference
 	NextID      int
 	ReqBase     int // number of requests served before this App value was cloned (keeps ids unique)
@@ -669,6 +673,87 @@ func (a *App) RewriteLocal(s string) string {
 		return s
 	}
 	return strings.ReplaceAll(s, "https://"+LocalHost, a.LocalPrefix())
+}
+
+// UseAltEndpoints moves the inbox and outbox of every local actor (every actor that has an inbox or
+// outbox table) to a query-routed IRI and rewrites the stored and remote documents and the tables.
+func (a *App) UseAltEndpoints() {
+	a.AltEndpoints = true
+	if a.Endpoints == nil {
+		a.Endpoints = map[string][2]string{}
+	}
+	seen := map[string]bool{}
+	add := func(box, kind string) {
+		actor := strings.TrimSuffix(box, "/"+kind)
+		if actor == box || seen[box] {
+			return
+		}
+		seen[box] = true
+		ep := fmt.Sprintf("%s/box?%s-of=%s", a.LocalPrefix(), kind, actor[strings.LastIndex(actor, "/")+1:])
+		a.altPairs = append(a.altPairs, [2]string{box, ep})
+		a.Endpoints[ep] = [2]string{actor, kind}
+	}
+	var boxes []string
+	for k := range a.Inboxes {
+		boxes = append(boxes, k)
+	}
+	for k := range a.Outboxes {
+		boxes = append(boxes, k)
+	}
+	sort.Strings(boxes)
+	for _, k := range boxes {
+		add(k, "inbox")
+		add(k, "outbox")
+	}
+	rwB := func(m map[string][]byte) map[string][]byte {
+		o := make(map[string][]byte, len(m))
+		for k, v := range m {
+			o[a.RewriteEndpoints(k)] = []byte(a.RewriteEndpoints(string(v)))
+		}
+		return o
+	}
+	rwL := func(m map[string][]string) map[string][]string {
+		o := make(map[string][]string, len(m))
+		for k, v := range m {
+			o[a.RewriteEndpoints(k)] = v
+		}
+		return o
+	}
+	a.Store, a.Remote = rwB(a.Store), rwB(a.Remote)
+	a.Inboxes, a.Outboxes = rwL(a.Inboxes), rwL(a.Outboxes)
+}
+
+// RewriteEndpoints maps the plain inbox / outbox IRIs of the local actors (or any text containing
+// some) to their query-routed form; PlainEndpoints is the inverse.
+func (a *App) RewriteEndpoints(s string) string {
+	for _, p := range a.altPairs {
+		s = strings.ReplaceAll(s, p[0], p[1])
+	}
+	return s
+}
+
+func (a *App) PlainEndpoints(s string) string {
+	for _, p := range a.altPairs {
+		s = strings.ReplaceAll(s, p[1], p[0])
+	}
+	return s
+}
+
+// CanonicalLines is Canonical as a sorted list of lines, each passed through f first (for comparing
+// worlds that differ by a renaming).
+func (a *App) CanonicalLines(f func(string) string) string {
+	var lines []string
+	for k, v := range a.Store {
+		lines = append(lines, f("S "+k+" = "+string(v)))
+	}
+	for k, v := range a.Inboxes {
+		lines = append(lines, f(fmt.Sprintf("I %s = %s", k, strings.Join(v, " "))))
+	}
+	for k, v := range a.Outboxes {
+		lines = append(lines, f(fmt.Sprintf("O %s = %s", k, strings.Join(v, " "))))
+	}
+	sort.Strings(lines)
+	return strings.Join(lines, "\n")
 }
 
 // UseScheme turns the world into one whose own IRIs use the given scheme: every local IRI in the
